@@ -921,8 +921,18 @@ func (idx *Index) Flush() (types.Work, error) {
 	idx.bucketLk.Unlock()
 	vhook.Point("index.flush.swapped")
 
+	// The records being flushed may name primary records that were stored
+	// after the primary was last flushed, by a Put that runs while the store
+	// is being flushed. An index record must never reach the disk before the
+	// primary record it names, otherwise a crash leaves an index entry without
+	// data. Every such primary record was handed to the primary before its
+	// index record was created, so flushing the primary now writes them all.
+	work, err := idx.Primary.Flush()
+	if err != nil {
+		return 0, err
+	}
+
 	blks := make([]bucketBlock, 0, len(idx.curPool))
-	var work types.Work
 	for bucket, data := range idx.curPool {
 		blk, newWork, err := idx.flushBucket(bucket, data)
 		if err != nil {
@@ -932,7 +942,7 @@ func (idx *Index) Flush() (types.Work, error) {
 		work += newWork
 	}
 	vhook.Point("index.flush.write")
-	err := idx.writer.Flush()
+	err = idx.writer.Flush()
 	if err != nil {
 		return 0, fmt.Errorf("cannot flush data to index file %s: %w", idx.file.Name(), err)
 	}
